@@ -39,6 +39,9 @@ type space struct {
 	wanted   bool
 	wantMine bool
 	inChan   int // requests for this space sitting in the pending channel (model)
+	// open: plot/mine requests accepted on this space while it was registered, since the last cancel / keeper stop;
+	// pops: how often the plotter has taken a request of this space from its queue since then
+	open, pops int
 	// how the last cancel related to the plotter position (for attributing a violation precisely)
 	cancelNote string
 	stale      int // requests issued before the last cancel that the cancel did not reach (still in the channel, or already popped)
@@ -64,6 +67,7 @@ type api struct {
 }
 
 type tcase struct {
+	directed        bool // the case starts with the three-requests-then-cancel motif
 	run             *vh.Run
 	ci              int
 	rng             *vh.Rng
@@ -381,6 +385,9 @@ func (t *tcase) next() (kp.Event, bool) {
 		t.run.Count("scripted_plots_ended:"+e.Out, 1)
 	case strings.HasPrefix(e.Kind, "gate:"):
 		if e.Kind == "gate:popped" {
+			if s := t.sp[e.SID]; s != nil {
+				s.pops++
+			}
 			if s := t.sp[e.SID]; s != nil && s.stale > 0 {
 				s.stale-- // this pop works off one request issued before the cancel
 				s.staleInFlight = true
@@ -468,6 +475,11 @@ func (t *tcase) act(action uint8, name string) {
 	} else {
 		sid = t.order[t.rng.Intn(len(t.order))]
 	}
+	t.actOn(sid, action, name)
+}
+
+// actOn: one single-space action on a chosen space, judged like any other move.
+func (t *tcase) actOn(sid string, action uint8, name string) {
 	err := t.sk.act(sid, action)
 	t.logf("ActOnWorkSpace(%s, %s) -> %v", short(sid), name, err)
 	t.run.Count("single_actions:"+name, 1)
@@ -495,6 +507,9 @@ func (t *tcase) bookkeep(name, sid string, err error) {
 	}
 	switch name {
 	case "plot", "mine":
+		if s.state == "registered" {
+			s.open++
+		}
 		s.wanted = true
 		if name == "mine" {
 			s.wantMine = true
@@ -515,6 +530,7 @@ func (t *tcase) bookkeep(name, sid string, err error) {
 		}
 	case "stop", "remove", "delete":
 		s.wanted, s.wantMine = false, false
+		s.open, s.pops = 0, 0
 		switch {
 		case s.inChan > 0:
 			s.cancelNote = "request-pending-in-channel-at-cancel"
@@ -606,6 +622,9 @@ func (t *tcase) keeperStop() {
 			}
 			t.started = false
 			t.pos = "exited"
+			for _, sp := range t.sp {
+				sp.open, sp.pops = 0, 0 // the plotter empties its queue on the way out
+			}
 			t.pendingReal()
 			t.run.Count("keeper_stops", 1)
 			targets := map[string]bool{}
@@ -687,6 +706,10 @@ func runCase(run *vh.Run, root *vh.Rng, i int) {
 	ctl := kp.NewCtl(fmt.Sprint(i), []string{dir})
 	n := rng.Range(1, 3)
 	nReady := rng.Intn(n + 1)
+	directed := i%8 == 5
+	if directed {
+		n, nReady = 3, 0
+	}
 	created := 0
 	ctl.CreatePlotted = func(string) bool { created++; return created <= nReady }
 	cfg := config.DefaultConfig()
@@ -729,6 +752,10 @@ func runCase(run *vh.Run, root *vh.Rng, i int) {
 	}
 	t := &tcase{run: run, ci: i, rng: rng, ctl: ctl, sk: a, dir: dir, sp: map[string]*space{}, byKey: map[string]string{}, pos: "notstarted"}
 	execPlot, execMine := rng.Chance(1, 4), rng.Chance(1, 5)
+	if directed {
+		execPlot, execMine = false, false
+		t.directed = true
+	}
 	infos, err := sk.ConfigureByBitLength(map[int]int{24: n}, execPlot, execMine)
 	if err != nil {
 		run.Drop("cannot configure: " + err.Error())
@@ -760,8 +787,33 @@ func runCase(run *vh.Run, root *vh.Rng, i int) {
 func (t *tcase) drive() {
 	rng, run := t.rng, t.run
 	t.judge("none", nil, t.observe(), nil)
+	if t.directed && len(t.order) == 3 {
+		// three requests handed in before the plotter runs: it takes them all into its queue at once, plots the first
+		// and keeps two queued; one of the queued ones is cancelled - the other must still be served
+		for _, sid := range t.order {
+			t.actOn(sid, 0, "plot")
+		}
+		t.keeperStart()
+		for k := 0; k < 10 && t.pos != "inplot" && !t.dead && t.started; k++ {
+			t.plotterStep()
+		}
+		if t.pos == "inplot" {
+			var queued []string
+			for _, sid := range t.order {
+				if sid != t.posSID {
+					queued = append(queued, sid)
+				}
+			}
+			a := 2 + rng.Intn(3)
+			t.actOn(queued[rng.Intn(len(queued))], uint8(a), []string{"plot", "mine", "stop", "remove", "delete"}[a])
+			t.run.Count("directed_cancel_of_a_queued_request", 1)
+		}
+	}
 	t.keeperStart()
 	steps := rng.Range(6, run.N(16, 24))
+	if t.directed {
+		steps = rng.Range(0, 4)
+	}
 	for s := 0; s < steps && !t.dead && run.Violations() < 40; s++ {
 		switch rng.Weighted(10, 9, 1, 1) {
 		case 0:
@@ -780,6 +832,17 @@ func (t *tcase) drive() {
 	// drain: let the plotter finish whatever is outstanding so that the last requests are judged too
 	for k := 0; k < 40 && !t.dead && t.started && t.pos != "select"; k++ {
 		t.plotterStep()
+	}
+	if t.started && !t.dead && t.pos == "select" && t.pendingReal() == 0 {
+		// the plotter is idle and nothing is queued any more: a request that was accepted on a registered space and not
+		// cancelled since must have been taken up by the plotter at least once
+		for _, sid := range t.order {
+			if sp := t.sp[sid]; sp != nil && sp.open > 0 && sp.pops == 0 && sp.state == "registered" {
+				t.violate("accepted-request-never-reached-the-plotter", map[string]string{"spaces": fmt.Sprint(len(t.order))},
+					map[string]interface{}{"sid": sid, "accepted_requests_since_last_cancel": sp.open, "note": "the plotter went idle with an empty queue and an empty request channel; this space's request was never popped, it is still registered"})
+			}
+		}
+		t.run.Count("final_drains_checked_for_lost_requests", 1)
 	}
 	if t.started && !t.dead {
 		t.keeperStop()
